@@ -136,14 +136,40 @@ def audit(prop, reg):
     return okc, problems, details
 
 
-def grep_forbidden():
+def import_closure(module):
+    """Lean files (relative to LEAN) the module depends on inside this project."""
+    seen, todo = set(), [module]
+    while todo:
+        m = todo.pop()
+        if m in seen:
+            continue
+        f = os.path.join(LEAN, m.replace(".", "/") + ".lean")
+        if not os.path.exists(f):
+            continue
+        seen.add(m)
+        for line in open(f, errors="replace"):
+            mm = re.match(r"\s*import\s+((?:ZkModel|ZkProofs)[\w.]*)", line)
+            if mm:
+                todo.append(mm.group(1))
+    return sorted(seen)
+
+
+def grep_forbidden(module):
     bad = []
     pat = re.compile(r"\bsorry\b|\badmit\b|^\s*axiom\s|native_decide|bv_decide|implemented_by|\bunsafe\s|maxHeartbeats 0")
-    for root in ("ZkModel", "ZkProofs"):
-        for dp, _, fs in os.walk(os.path.join(LEAN, root)):
-            for fn in fs:
-                if not fn.endswith(".lean"):
-                    continue
+    files = [m.replace(".", "/") + ".lean" for m in import_closure(module)]
+    for dp, _, fs in os.walk(os.path.join(LEAN, "ZkModel")):
+        for fn in fs:
+            rel = os.path.relpath(os.path.join(dp, fn), LEAN)
+            if fn.endswith(".lean") and rel not in files:
+                files.append(rel)
+    if True:
+        if True:
+            for rel in files:
+                dp, fn = os.path.split(os.path.join(LEAN, rel))
+                root = os.path.dirname(rel)
+                if True:
+                    pass
                 incomment = False
                 for i, line in enumerate(open(os.path.join(dp, fn), errors="replace")):
                     s = line
@@ -276,7 +302,7 @@ def main(argv):
     if rc_thm == 0:
         okc, aud_problems, details = audit(prop, reg)
     proof_problems += aud_problems
-    forb = grep_forbidden()
+    forb = grep_forbidden(reg["module"])
     if forb:
         proof_problems.append("forbidden constructs: " + "; ".join(forb[:5]))
     if a.tier == "thorough" and rc_thm == 0:
@@ -318,6 +344,16 @@ def main(argv):
                 if w is not None and w.split(" ")[0] != o["impl"].split(" ")[0]:
                     oracle["failures"].append({"class": prop + ".corpus", "what": "corpus case regressed: expected %s, implementation now %s" % (w.split(" ")[0], o["impl"].split(" ")[0]), "lines": [o["id"]], "suite": o["suite"]})
             ops_all = cops + ops_all
+    records = {}
+    rj = os.path.join(gen_dir, "ops.jsonl")
+    if os.path.exists(rj):
+        for l in open(rj):
+            if l.strip():
+                try:
+                    r = json.loads(l)
+                    records[str(r["id"])] = r
+                except Exception:
+                    pass
     # 5. model runs + diff
     disagreements = []
     model = {}
@@ -332,7 +368,7 @@ def main(argv):
         for o in ops_all:
             m = model.get(o["id"])
             if m != o["impl"]:
-                disagreements.append({"line": o["line"] if "line" in o else o["lhs"], "impl": o["impl"], "model": m})
+                disagreements.append({"id": o["id"], "line": o["line"] if "line" in o else o["lhs"], "impl": o["impl"], "model": m})
     else:
         model_s = 0.0
 
@@ -340,14 +376,25 @@ def main(argv):
     byid = {o["id"]: o for o in ops_all}
     kf = [k for k in known_findings() if k.get("property") == prop and k.get("status") == "known"]
     known_hit = []
+    by_class = {}
     for f in oracle["failures"]:
-        lines = [byid[str(i)]["lhs"] + " => " + byid[str(i)]["impl"] for i in f.get("lines", []) if str(i) in byid]
         k = next((k for k in kf if k.get("class") == f["class"]), None)
         if k:
-            known_hit.append((k, f))
+            if not any(x[0] is k for x in known_hit):
+                known_hit.append((k, f))
             continue
-        rp = write_replay(prop, "oracle", f["what"], lines, {"class": f["class"], "suite": f.get("suite")})
-        violations.append(("oracle", "%s [%s]" % (f["what"], f["class"]), rp, True))
+        by_class.setdefault(f["class"], []).append(f)
+    for cls, fs in by_class.items():
+        # one VIOLATION line per failure class; the replay holds the first instances
+        lines, recs = [], []
+        for f in fs[:5]:
+            for i in f.get("lines", []):
+                if str(i) in byid:
+                    lines.append(byid[str(i)]["lhs"] + " => " + byid[str(i)]["impl"])
+                    if str(i) in records:
+                        recs.append(records[str(i)])
+        rp = write_replay(prop, "oracle", fs[0]["what"], lines, {"class": cls, "suite": fs[0].get("suite"), "instances": len(fs), "all": [f["what"] for f in fs[:20]], "records": recs})
+        violations.append(("oracle", "%s [%s, %d instance(s)]" % (fs[0]["what"], cls, len(fs)), rp, True))
     if disagreements:
         # search: does any disagreeing case also fail the property oracle? (those are already
         # reported above with their input); otherwise report the broken correspondence
@@ -355,7 +402,8 @@ def main(argv):
                           "model and implementation disagree on %d of %d operations; first: impl=%s model=%s" % (
                               len(disagreements), len(ops_all), short(disagreements[0]["impl"], 60), short(str(disagreements[0]["model"]), 60)),
                           [d["line"] for d in disagreements[:20]],
-                          {"broken": "correspondence ZkModel.L1 <-> implementation", "count": len(disagreements)})
+                          {"broken": "correspondence ZkModel.L1 <-> implementation", "count": len(disagreements),
+                           "records": [records[d["id"]] for d in disagreements[:20] if d["id"] in records]})
         found = any(v[0] == "oracle" for v in violations)
         violations.append(("correspondence", "model/implementation disagreement on %d operations" % len(disagreements), rp, found))
     if proof_problems:
@@ -431,7 +479,10 @@ def replay(prop, engine, path):
     shutil.rmtree(work, ignore_errors=True)
     os.makedirs(work)
     f = os.path.join(work, "in.txt")
-    open(f, "w").write("\n".join(l[1:] if l.startswith("c") else l for l in lines) + "\n")
+    if engine == "cl":
+        open(f, "w").write("\n".join(json.dumps(r) for r in body.get("records", [])) + "\n")
+    else:
+        open(f, "w").write("\n".join(l[1:] if l.startswith("c") else l for l in lines) + "\n")
     env = cl_env() if engine == "cl" else {}
     rc, out = run([hbin, "replay", "quick", "0", work, f], env=env)
     ops = parse_ops(os.path.join(work, "ops.txt")) if rc == 0 else []
